@@ -23,7 +23,7 @@ use crate::{
     zoo::{self, with_ledger, ZooComp},
 };
 
-use Member::{Not, Opt, Req};
+use Member::{Not, Opt, OptPair, Req};
 
 // ---------------------------------------------------------------------------
 // recording
@@ -165,6 +165,8 @@ pub fn shapes() -> Vec<Shape> {
         shape!(both "ents,maybe-mut-s3,s0"; |f| {} (&f.ents, (&mut f.s3).maybe(), &f.s0); [Req(E), Opt(S3), Req(S0)]),
         shape!(both "s1,maybe-s0,maybe-mut-s4,not-s6"; |f| {} (&f.s1, (&f.s0).maybe(), (&mut f.s4).maybe(), !&f.s6); [Req(S1), Opt(S0), Opt(S4), Not(S6)]),
         shape!(lend "ents,maybe-mut-s7"; |f| {} (&f.ents, (&mut f.s7).maybe()); [Req(E), Opt(S7)]),
+        shape!(both "ents,maybe-pair(s0,maybe-s1)"; |f| {} (&f.ents, (&f.s0, (&f.s1).maybe()).maybe()); [Req(E), OptPair(S0, S1)]),
+        shape!(both "s2,maybe-pair(s3,maybe-s6),not-s1"; |f| {} (&f.s2, (&f.s3, (&f.s6).maybe()).maybe(), !&f.s1); [Req(S2), OptPair(S3, S6), Not(S1)]),
         shape!(both "b0"; |f| {} (f.b0); [Req(Res::B(0))]),
         shape!(both "b0,s0"; |f| {} (f.b0, &f.s0); [Req(Res::B(0)), Req(S0)]),
         shape!(both "ab,ents"; |f| {} (f.ab, &f.ents); [Req(Res::B(2)), Req(E)]),
@@ -241,6 +243,15 @@ fn expected_item(jw: &JoinWorld, m: &Member, i: u32) -> ItemVal {
             }
         }
         Opt(_) => ItemVal::Opt(None),
+        OptPair(Res::S(a), Res::S(b)) => {
+            if model.masks[*a].contains(&i) {
+                let inner = if model.masks[*b].contains(&i) { ItemVal::Opt(Some(Box::new(comp(*b)))) } else { ItemVal::Opt(None) };
+                ItemVal::Opt(Some(Box::new(ItemVal::Tup(vec![comp(*a), inner]))))
+            } else {
+                ItemVal::Opt(None)
+            }
+        }
+        OptPair(..) => ItemVal::Opt(None),
     }
 }
 
@@ -456,7 +467,7 @@ pub fn c06() -> Property {
             shards: |t: Tier| t.pick(8, 16),
             run: c06_run,
             replay: c06_replay,
-            rule: "a catalogue of 45 join shapes (arity 1..16 (the largest the BitAnd impls support); shared and mutable storages of eight kinds, entities, BitSet / AtomicBitSet / And / Or / Xor / Not / dyn bit sets by value and by reference, negated storages, maybe() shared and mutable, restricted storages, change sets by reference / mutably / by value, drains, entries()) x generated membership per member (boundary atoms around 63/64, 4095/4096, 262143/262144, 524287/524288 + random runs + singles, inverted = nearly full, dead / pending-dead / reused / not-yet-merged entities) x a generated subset of items written through; each shape is executed as join(), lend_join().next(), lend_join().for_each() and probed with lend_join().get() for live members, live non-members and dead handles; oracle: model intersection in ascending order, each index once, items equal to the model values and to direct lookups, optional members Some iff in mask, writes visible exactly on the written entities, drained / consumed members lose exactly the visited indices; non-trivial = >= 2 members, non-empty and non-full intersection touching >= 2 layer-0 words",
+            rule: "a catalogue of 47 join shapes (arity 1..16 (the largest the BitAnd impls support); shared and mutable storages of eight kinds, entities, BitSet / AtomicBitSet / And / Or / Xor / Not / dyn bit sets by value and by reference, negated storages, maybe() shared and mutable, restricted storages, change sets by reference / mutably / by value, drains, entries()) x generated membership per member (boundary atoms around 63/64, 4095/4096, 262143/262144, 524287/524288 + random runs + singles, inverted = nearly full, dead / pending-dead / reused / not-yet-merged entities) x a generated subset of items written through; each shape is executed as join(), lend_join().next(), lend_join().for_each() and probed with lend_join().get() for live members, live non-members and dead handles; oracle: model intersection in ascending order, each index once, items equal to the model values and to direct lookups, optional members Some iff in mask, writes visible exactly on the written entities, drained / consumed members lose exactly the visited indices; non-trivial = >= 2 members, non-empty and non-full intersection touching >= 2 layer-0 words",
             exe_env: None,
         }],
         crash_is_violation: true,
@@ -552,6 +563,7 @@ pub fn par_shapes() -> Vec<ParShape> {
         par_shape!("mut-s4,s6,not-s1"; |f| {} (&mut f.s4, &f.s6, !&f.s1); [Req(S4), Req(S6), Not(S1)]; muts [0]),
         par_shape!("mut-s5,ents"; |f| {} (&mut f.s5, &f.ents); [Req(S5), Req(E)]; muts [0]),
         par_shape!("ents,maybe-mut-s0,maybe-s7"; |f| {} (&f.ents, (&mut f.s0).maybe(), (&f.s7).maybe()); [Req(E), Opt(S0), Opt(S7)]; muts [1]),
+        par_shape!("s2,maybe-pair(s0,maybe-s1)"; |f| {} (&f.s2, (&f.s0, (&f.s1).maybe()).maybe()); [Req(S2), OptPair(S0, S1)]; muts []),
         par_shape!("b0,mut-s3"; |f| {} (f.b0, &mut f.s3); [Req(Res::B(0)), Req(S3)]; muts [1]),
         par_shape!("ab,ents,not-s2"; |f| {} (f.ab, &f.ents, !&f.s2); [Req(Res::B(2)), Req(E), Not(S2)]; muts []),
         par_shape!("or(b0,b1),mut-s1"; |f| {} (BitSetOr(f.b0, f.b1), &mut f.s1); [Req(Res::OrB01), Req(S1)]; muts [1]),
@@ -711,15 +723,115 @@ fn c07_replay(v: &Value) -> Verdict {
     c07_one(&c, &mut s, "C07", |_| true)
 }
 
+/// Joins without any positive member: `(!&s1, (&s0).maybe())` walks every index below 2^24 that is
+/// not in s1.  Items carry no index, so the oracle is the item count, the number of present optional
+/// components and their identities, plus the effects of the mutable variant.
+fn c07_unbounded_one(case: &ParCase, stats: &mut Stats) -> Verdict {
+    use rayon::iter::ParallelIterator;
+    const ALL: u64 = 1 << 24;
+    let mut jw = build(&case.membership);
+    let m0 = jw.model.masks[0].clone();
+    let m1 = jw.model.masks[1].clone();
+    let want_count = ALL - m1.len() as u64;
+    let mut want_some: Vec<joinworld::Ident> = m0.iter().filter(|i| !m1.contains(i)).map(|i| jw.model.vals[0][i]).collect();
+    want_some.sort();
+    // default-sized worker stacks: splitting 2^24 indices recurses deeper than the small stacks of the
+    // many-thread pools used elsewhere allow
+    const BIG_POOLS: [usize; 5] = [1, 2, 3, 8, 32];
+    let n = BIG_POOLS[case.threads.unwrap_or(case.shape) as usize % BIG_POOLS.len()];
+    let p = std::sync::Arc::new(rayon::ThreadPoolBuilder::new().num_threads(n).build().expect("rayon pool"));
+    let mutable = case.variant % 2 == 1;
+    let before0 = jw.contents(0);
+    let (seq_count, par_count, mut somes) = {
+        let jwr = &mut jw;
+        p.install(move || {
+            let mut f = jwr.fetch();
+            let seq_count = (!&f.s1, (&f.s0).maybe()).join().count() as u64;
+            let (par_count, somes) = if mutable {
+                (!&f.s1, (&mut f.s0).maybe())
+                    .par_join()
+                    .fold(|| (0u64, Vec::new()), |mut acc, (_, o)| {
+                        acc.0 += 1;
+                        if let Some(c) = o {
+                            acc.1.push(c.ident());
+                            c.set_payload(u32::MAX);
+                        }
+                        acc
+                    })
+                    .reduce(|| (0u64, Vec::new()), |mut a, mut b| {
+                        a.0 += b.0;
+                        a.1.append(&mut b.1);
+                        a
+                    })
+            } else {
+                (!&f.s1, (&f.s0).maybe())
+                    .par_join()
+                    .fold(|| (0u64, Vec::new()), |mut acc, (_, o)| {
+                        acc.0 += 1;
+                        if let Some(c) = o {
+                            acc.1.push(c.ident());
+                        }
+                        acc
+                    })
+                    .reduce(|| (0u64, Vec::new()), |mut a, mut b| {
+                        a.0 += b.0;
+                        a.1.append(&mut b.1);
+                        a
+                    })
+            };
+            (seq_count, par_count, somes)
+        })
+    };
+    somes.sort();
+    let ctx = format!("(!&s1, ({}s0).maybe()).par_join() on a pool of {} threads", if mutable { "&mut " } else { "&" }, n);
+    ensure!("C06", "join-item-count", seq_count == want_count, "sequential (!&s1, (&s0).maybe()).join() yields {} items, expected 2^24 - {} = {}", seq_count, m1.len(), want_count);
+    ensure!("C07", if par_count < want_count { "par-missing-items" } else { "par-duplicate-items" }, par_count == want_count,
+        "{}: delivered {} items, the sequential join {}", ctx, par_count, want_count);
+    ensure!("C07", "par-different-items", somes == want_some, "{}: delivered {} present optional components, expected the {} of s0 outside s1", ctx, somes.len(), want_some.len());
+    let mut want0 = before0;
+    if mutable {
+        for (i, v) in want0.iter_mut() {
+            if !m1.contains(i) {
+                v.1 = u32::MAX;
+            }
+        }
+    }
+    ensure!("C07", "par-effects", jw.contents(0) == want0, "{}: storage s0 after the join differs from the expectation (writes exactly on s0 minus s1)", ctx);
+    stats.label(&format!("pool.{}", n));
+    stats.label(if mutable { "mutable_optional_member" } else { "shared_optional_member" });
+    stats.case(case, !m1.is_empty() && want_some.len() >= 2);
+    Ok(())
+}
+
+fn c07_unbounded_run(ctx: &ShardCtx) -> ShardResult {
+    let cases = ctx.tier.pick(12, 150);
+    run_proptest(ctx, par_case(), cases, 71, |c, stats| c07_unbounded_one(c, stats))
+}
+
+fn c07_unbounded_replay(v: &Value) -> Verdict {
+    let c: ParCase = parse_case("par", v)?;
+    let mut s = Stats::default();
+    c07_unbounded_one(&c, &mut s)
+}
+
 pub fn c07() -> Property {
     Property {
         id: "C07",
-        subs: vec![SubCheck {
+        subs: vec![
+        SubCheck {
             name: "parjoins",
             shards: |t: Tier| t.pick(8, 16),
             run: c07_run,
             replay: c07_replay,
-            rule: "14 ParJoin-capable shapes (shared / mutable storages of the six DistinctStorage kinds, entities, bit sets, negation, maybe(), restricted storages, arity up to 9) x generated membership (as C06: dense, sparse, straddling the 64 / 4096 / 262144 / 524288 boundaries) executed (a) on real rayon pools of {1,2,3,4,7,16,64,256} threads through map+collect, for_each and fold+reduce, (b) through the split-tree hook: split unconditionally to a generated depth (0..14, i.e. up to 16384 leaves) and then follow a generated Vec<bool> (owned schedule of the index-space partition; nearly-full masks of up to 270000 indices make deep trees real); oracle: multiset of delivered (index, components) items == sequential join on an identical world, every mutable component of the intersection written exactly once and nothing else changed; non-trivial = intersection of >= 2 indices over >= 2 layer-1 words and >= 2 threads / leaves",
+            rule: "15 ParJoin-capable shapes (shared / mutable storages of the six DistinctStorage kinds, entities, bit sets, negation, maybe(), restricted storages, arity up to 9) x generated membership (as C06: dense, sparse, straddling the 64 / 4096 / 262144 / 524288 boundaries) executed (a) on real rayon pools of {1,2,3,4,7,16,64,256} threads through map+collect, for_each and fold+reduce, (b) through the split-tree hook: split unconditionally to a generated depth (0..14, i.e. up to 16384 leaves) and then follow a generated Vec<bool> (owned schedule of the index-space partition; nearly-full masks of up to 270000 indices make deep trees real); oracle: multiset of delivered (index, components) items == sequential join on an identical world, every mutable component of the intersection written exactly once and nothing else changed; non-trivial = intersection of >= 2 indices over >= 2 layer-1 words and >= 2 threads / leaves",
+            exe_env: None,
+        },
+        SubCheck {
+            name: "unbounded",
+            shards: |t: Tier| t.pick(4, 8),
+            run: c07_unbounded_run,
+            replay: c07_unbounded_replay,
+            rule: "joins without a positive member, (!&s1, (&s0).maybe()) and (!&s1, (&mut s0).maybe()), which walk all 2^24 indices outside s1, over generated membership on real pools: item count == sequential count == 2^24 - |s1|, identities of the present optional components == s0 minus s1, writes visible exactly there; non-trivial = s1 non-empty and >= 2 present components",
             exe_env: None,
         }],
         crash_is_violation: true,
@@ -814,7 +926,7 @@ pub struct CsCase {
 fn cs_case(with_bomb: bool) -> impl Strategy<Value = CsCase> {
     (
         crate::stoseq::pool_strategy(),
-        proptest::collection::vec((any::<u16>(), 1u32..100_000), 0..24),
+        proptest::collection::vec((any::<u16>(), 1u32..100_000), 0..90),
         (any::<u8>(), any::<u8>()),
         0u8..10,
         joinworld::index_set(),
@@ -867,8 +979,18 @@ fn cs_one(case: &CsCase, prop: &'static str) -> Result<CsFacts, Violation> {
     }
     let a = (case.split.0 as usize * (pairs.len() + 1)) >> 8;
     let b = a + ((case.split.1 as usize * (pairs.len() - a + 1)) >> 8);
-    let mut cs: ChangeSet<Amt> = pairs[..a].iter().map(|(e, x)| (*e, Amt::new(*x))).collect();
-    cs.extend(pairs[a..b].iter().map(|(e, x)| (*e, Amt::new(*x))));
+    // the source iterator's shape must not matter: exact-size, or one whose size_hint is (0, Some(n))
+    let opaque = case.split.0 % 2 == 1;
+    let mut cs: ChangeSet<Amt> = if opaque {
+        pairs[..a].iter().map(|(e, x)| (*e, Amt::new(*x))).filter(|_| true).collect()
+    } else {
+        pairs[..a].iter().map(|(e, x)| (*e, Amt::new(*x))).collect()
+    };
+    if case.split.1 % 2 == 1 {
+        cs.extend(pairs[a..b].iter().map(|(e, x)| (*e, Amt::new(*x))).filter(|_| true));
+    } else {
+        cs.extend(pairs[a..b].iter().map(|(e, x)| (*e, Amt::new(*x))));
+    }
     for (e, x) in &pairs[b..] {
         cs.add(*e, Amt::new(*x));
     }
@@ -1053,7 +1175,7 @@ fn cs_one(case: &CsCase, prop: &'static str) -> Result<CsFacts, Violation> {
 }
 
 fn c16_run(ctx: &ShardCtx) -> ShardResult {
-    let cases = ctx.tier.pick(8000, 40_000);
+    let cases = ctx.tier.pick(8000, 250_000);
     run_proptest(ctx, cs_case(false), cases, 16, |c, stats| {
         let f = cs_one(c, "C16")?;
         stats.label(&format!("mode.{}", ["mutable-joins", "consume", "consume-with-storage", "clear-reuse", "consume-lending"][c.mode as usize % 5]));
@@ -1079,7 +1201,7 @@ pub fn c16() -> Property {
 }
 
 fn c08_cs_run(ctx: &ShardCtx) -> ShardResult {
-    let cases = ctx.tier.pick(2000, 15_000);
+    let cases = ctx.tier.pick(2000, 60_000);
     run_proptest(ctx, cs_case(false), cases, 17, |c, stats| {
         let f = cs_one(c, "C16")?;
         stats.case(c, f.nontrivial && (c.mode % 5 == 1 || c.mode % 5 == 3 || c.mode % 5 == 4));
@@ -1099,7 +1221,7 @@ pub fn c08_changeset_sub() -> SubCheck {
 }
 
 fn c19_cs_run(ctx: &ShardCtx) -> ShardResult {
-    let cases = ctx.tier.pick(1000, 8000);
+    let cases = ctx.tier.pick(1000, 30_000);
     run_proptest(ctx, cs_case(true).prop_map(|mut c| { c.mode = 3; c }), cases, 18, |c, stats| {
         let f = cs_one(c, "C19")?;
         if f.fired {
